@@ -615,6 +615,15 @@ def run_case(case):
             if i in exc:
                 V.add("%s:exception:%s:%s" % (gc, exc[i].split(":")[0], rc), "tracing a ray raised", "spectral array", dict(_ray_desc(O, D, i), exception=exc[i], step=case["step"], tf=case["tf"]))
                 continue
+            if lit[i].any() and not bad_cell[i].any():
+                # the statement's literal bound (two integration steps) is exceeded although the documented
+                # midpoint rule is followed: reported under its own narrow signature (a listed known finding),
+                # never silently excused
+                c = int(np.argmax(lit[i]))
+                V.add("%s:cell-vs-chord:literal-2dt-exceeded:k>2-intervals" % gc,
+                      "a cell of a periodic grid crossed in k > 2 disjoint intervals: entry differs from the exact chord by more than two integration steps (but less than k steps)",
+                      {"cell": c, "L_lo": float(ref["L_lo"][i, c]), "L_hi": float(ref["L_hi"][i, c]), "dt": float(dt[i]), "intervals_of_this_cell_on_ray": int(ref["nint"][i, c])},
+                      dict(_ray_desc(O, D, i), entry=float(Ec[i, c]), step=case["step"], tf=case["tf"]))
             if not (bad_sum[i] or bad_cell[i].any()):
                 continue
             if bad_sum[i]:
